@@ -318,16 +318,21 @@ def collect_messages():
         calls = []
         for c in mro:
             calls += classes[c]["calls"]
-        vattrs = sorted({a for a in dir(cls) if not a.startswith("_")} |
+        # data attributes of the validator: class attributes that are neither methods nor message templates, plus
+        # what __init__ assigns
+        vattrs = sorted({a for a in dir(cls) if not a.startswith("_") and not callable(getattr(cls, a))
+                         and a not in declared} |
                         {a for c in mro for a in classes[c]["init_attrs"]})
         for attr in sorted(declared):
             val = declared[attr]
-            supplied = set()
+            # keywords that EVERY call site able to emit this message passes (a dynamic key can emit any message)
+            supplied = None
             used = False
             for key, kws, star in calls:
                 if key == attr or key is None:
-                    supplied |= set(kws)
+                    supplied = set(kws) if supplied is None else (supplied & set(kws))
                     used = True
+            supplied = supplied or set()
             if not used and cname != "Validator":
                 problems.append("%s.%s: no note_error call site emits this message" % (cname, attr))
             if isinstance(val, tuple):
@@ -340,8 +345,9 @@ def collect_messages():
 
 
 def element_attrs():
+    """data attributes every element has (methods are not substitutable values)"""
     import flatland
-    return sorted(a for a in dir(flatland.Element) if not a.startswith("_"))
+    return sorted(a for a in dir(flatland.Element) if not a.startswith("_") and not callable(getattr(flatland.Element, a)))
 
 
 # ------------------------------------------------------------------ Lean emission
@@ -456,8 +462,17 @@ def extract_all():
     return msgs, cats, problems
 
 
+DICT_METHODS = ["clear", "copy", "fromkeys", "get", "items", "keys", "pop", "popitem", "setdefault", "update", "values"]
+LIST_METHODS = ["append", "clear", "copy", "count", "extend", "index", "insert", "pop", "remove", "reverse", "sort"]
+
+
 @extract.register("C16")
 def extract_c16():
     msgs, cats, problems = extract_all()
+    # public attributes of dict / list, which the model gives the keyword dict and dict / list states
+    for typ, want in ((dict, DICT_METHODS), (list, LIST_METHODS)):
+        got = sorted(a for a in dir(typ) if not a.startswith("_"))
+        if got != want:
+            problems.append("pin public attributes of %s: interpreter has %r, the model was written for %r" % (typ.__name__, got, want))
     extract.write_if_changed("C16Catalogues.lean", emit(msgs, cats, element_attrs()))
     return problems
